@@ -21,15 +21,262 @@ var Table = map[string]*Property{}
 
 func add(p *Property) { Table[p.ID] = p }
 
+const structural = " This is a structural necessary-condition check: it decides the listed shape conditions on every path of the code that implements the mechanism, not the behavioural statement as a whole."
+
 func init() {
 	add(&Property{
-		ID:          "C13",
-		Title:       "no data races inside the library under any concurrent use of its concurrent APIs",
-		Sels:        []Sel{{Run: "R1", Scope: ConcurrentPkgs, Rules: []string{"R1", "R11a", "R11c"}}},
+		ID: "C01", Title: "csync locks: one writer or many readers, and only between acquire and release",
+		Sels: []Sel{
+			{Run: "Gcsync", Rules: []string{"R12", "R16"}, Exclude: []string{"writeWaiting", "release-called"}},
+			{Run: "R1", Scope: []string{"csync", "broadcast"}, Rules: []string{"R1a", "R1b", "R1d", "R11a"}},
+		},
+		Floors:      map[string]int{"R12": 24, "R16": 5, "R1a": 5},
+		Explanation: "csync: every grant write (locked/writing = true, nreaders++) is implied, inside its own critical section, by the availability condition the property states; every un-grant write happens only under 'this call's status word was 1' / 'first call of the release function' and in the mode of the grant; Lock/TryLock report success only with status 1 and after a grant write on the same path, and report failure only on paths without a grant; release functions and MutexLocker.Unlock start with an atomic test-and-set; the guarded fields are touched only under the lock (R1a)." + structural,
+		NotDecided:  "fairness, timing, and the one-instance-per-method assumption A1; the exclusion itself is an inductive consequence of these per-path conditions and is not established as a theorem here.",
+		Assumptions: []string{A1, A2, A3},
+		Technique:   "guarded-effect analysis (path conditions vs required guard, truth tables over canonical atoms) + static lockset",
+	})
+	add(&Property{
+		ID: "C02", Title: "csync locks: grantable waiters are granted, cancelled waiters leave no trace",
+		Sels: []Sel{
+			{Run: "R2", Scope: []string{"csync", "broadcast"}, Rules: []string{"R2a", "R2b", "R2c", "R2d"}, Prefixes: []string{"csync."}},
+			{Run: "Gcsync", Rules: []string{"R12"}, Contains: []string{"writeWaiting", "grant(nreaders++)", "return-failure", "release-called"}},
+			{Run: "R17", Scope: []string{"csync"}, Rules: []string{"R17", "R2f"}},
+		},
+		Floors:      map[string]int{"R2a": 2, "R2b": 10, "R2c": 2, "R12": 9},
+		Explanation: "No lost wake-up in Mutex.Lock / RWMutex.Lock: the decision to wait and the wait channel come from one critical section (R2a); every path through a section that can turn a blocked waiter's predicate (Mutex: locked; reader: writing || writeWaiting != 0; writer: nreaders != 0 || writing) into 'grantable' calls broadcast (R2b, truth-table evaluation); no re-sampling without a consumed event (R2c). Writer preference: every read grant is guarded by writeWaiting == 0. No trace: the ctx.Done() arm runs the release closure, returns context.Canceled only there, and writeWaiting++/-- balance on every returning path." + structural,
+		NotDecided:  "which waiter wins; that woken goroutines are scheduled; starvation freedom.",
+		Assumptions: []string{A1, A2, A3},
+		Technique:   "waiter-discipline analysis (sample-and-subscribe, enabling-write-broadcasts truth tables, wake evidence) + guarded effects",
+	})
+	add(&Property{
+		ID: "C03", Title: "broadcast: a waiter never misses a broadcast issued after it sampled the state",
+		Sels: []Sel{
+			{Run: "R2", Rules: []string{"R2e"}},
+			{Run: "R2", Rules: []string{"R2a", "R2c"}, Prefixes: []string{"broadcast."}},
+			{Run: "R2", Rules: []string{"R2d"}},
+			{Run: "R1", Scope: []string{"broadcast"}, Rules: []string{"R1a", "R11a", "R11c"}},
+			{Run: "R17", Scope: []string{"broadcast"}, Rules: []string{"R17", "R2f"}},
+		},
+		Floors:      map[string]int{"R2e": 5, "R2d": 40, "R2a": 1, "R2c": 1, "R1a": 1, "R17": 2},
+		Explanation: "Inside Broadcast: ch is created, closed and cleared only under mtx (R1a); broadcast closes the current channel and forgets it in the same section, getWaitCh hands out a non-nil channel that is the field the next broadcast closes, and all three HoldLock variants run the callback with the mutex held (R2e, R11a). Wait samples its predicate and subscribes in one section, re-samples only after a received wake-up, returns context.Canceled only after its context fired (R2a, R2c, R17). No section callback in the library lets broadcast/getWaitCh escape its section (R2d, all HoldLock call sites)." + structural,
+		NotDecided:  "behaviour of client predicates; scheduling latency.",
+		Assumptions: []string{A3, A4},
+		Technique:   "typestate/shape rules on Broadcast + waiter discipline + static lockset",
+	})
+	add(&Property{
+		ID: "C04", Title: "routine: at most one instance of the managed function executes at a time",
+		Sels: []Sel{
+			{Run: "R3", Scope: []string{"routine"}, Prefixes: []string{"routine."}},
+			{Run: "Groutine", Rules: []string{"R4"}},
+		},
+		Floors:      map[string]int{"R3a": 2, "R3b": 4, "R3c": 1, "R3d": 2, "R4": 2},
+		Explanation: "Exit-channel chain of routine: execute receives from the predecessor's channel before it calls the user function and before it closes its own channel on every path (R3a); start passes a fresh channel, stored in the record in the same section (R3c); every start site forwards a chain value read before it is cleared (R3b); SetRoutine(nil)/no-context paths keep the detached routine's channel for the next start (R3d); predecessors are cancelled before they are superseded (R4)." + structural,
+		NotDecided:  "that user functions honour cancellation; exit latency.",
+		Assumptions: []string{A1, A3, A4},
+		Technique:   "exit-channel-chain analysis (must-precede on paths, provenance dataflow of wait channels)",
+	})
+	add(&Property{
+		ID: "C05", Title: "routine: superseded instances are cancelled; survivor has latest context+state",
+		Sels: []Sel{
+			{Run: "Groutine", Rules: []string{"R4", "R12"}, Contains: []string{"cancel", "derived-context", "current-context", "status-reset", "go-execute"}},
+			{Run: "R1", Scope: []string{"routine"}, Rules: []string{"R1a"}, Prefixes: []string{"routine."}},
+		},
+		Floors:      map[string]int{"R4": 3, "R12": 5, "R1a": 12},
+		Explanation: "Every supersession path cancels the old instance first (slot cleared/overwritten, context changed, new instance spawned); the new instance's context derives from the ctx handed to start, which at every call site is the container's current context; start resets the exit status; all container and record fields, including the state of StateRoutineContainer, are accessed under RoutineContainer.bcast only (R1a) — the static form of 'also under concurrent calls'." + structural,
+		NotDecided:  "the quiescent-state claim as a statement over histories; 'most recently stored state' beyond the fact that state and routine are replaced in one critical section.",
+		Assumptions: []string{A1, A3, A4},
+		Technique:   "cancel-before-supersede must-precede analysis + static lockset",
+	})
+	add(&Property{
+		ID: "C06", Title: "keyed: the key set equals what Set/Remove/Sync/refs asked for, delays included",
+		Sels: []Sel{
+			{Run: "Gkeyed", Rules: []string{"R6b", "R16"}},
+			{Run: "Gkeyed", Rules: []string{"R5b", "R12"}, Contains: []string{"remove", "AddKeyRef", "Release"}},
+			{Run: "R1", Scope: []string{"keyed"}, Rules: []string{"R1a"}, Prefixes: []string{"keyed.Keyed", "keyed.KeyedRefCount", "keyed.runningRoutine.deferRemove"}},
+		},
+		Floors:      map[string]int{"R6b": 2, "R16": 2, "R12": 4, "R5b": 2},
+		Explanation: "Necessary conditions only: SetKey and SyncKeys cancel a pending delayed removal of a record they keep; the delayed-removal callback re-validates registration and the pending flag under the lock; remove() deletes at once exactly when there is no delay or the routine failed; AddKeyRef inserts and registers under one lock; Release removes the key exactly when the last reference goes and is idempotent; RemoveKey marks references released; routines/refs are accessed under their mutex." + structural,
+		NotDecided:  "that the reported key set and every return value equal the reference model after every history (a statement about values over histories); timer expiry times.",
+		Assumptions: []string{A1, A3, A5},
+		Technique:   "sibling-agreement and guarded-effect rules on paths",
+	})
+	add(&Property{
+		ID: "C07", Title: "keyed: per key one live routine, cancelled on removal, retried while wanted",
+		Sels: []Sel{
+			{Run: "R3", Scope: []string{"keyed"}, Prefixes: []string{"keyed."}},
+			{Run: "Gkeyed", Rules: []string{"R4", "R5a", "R5c"}},
+			{Run: "Gkeyed", Rules: []string{"R5b", "R12"}, Contains: []string{"restart", "go-execute", "start/", "status-writes", "exit-callbacks"}},
+		},
+		Floors:      map[string]int{"R3a": 2, "R3b": 6, "R3c": 1, "R3d": 1, "R4": 3, "R5c": 3, "R5b": 2},
+		Explanation: "Exit-channel chain for keyed routines (R3a-d); the cancel func of a record is called before the key is deleted, before its slot is overwritten and when the root context changes (R4); the retry timer callback restarts only a still-registered, exited record with a context, and the exit bookkeeping arms the retry exactly when the instance failed while registered with retry configured (R5b/c); no API path stops a retry timer without starting, detaching or re-arming the record (R5a)." + structural,
+		NotDecided:  "retry timing (back-off values); liveness of Go timers.",
+		Assumptions: []string{A1, A3, A4, A5},
+		Technique:   "exit-channel-chain analysis + timer/cancel obligations on paths",
+	})
+	add(&Property{
+		ID: "C08", Title: "refcount: each resolved value is released exactly once, never exposed afterwards",
+		Sels: []Sel{
+			{Run: "Grefcount", Rules: []string{"R7", "R16"}},
+			{Run: "Grefcount", Rules: []string{"R12"}, Contains: []string{"removeRef", "SetContext"}},
+			{Run: "R1", Scope: []string{"refcount"}, Rules: []string{"R1a"}, Prefixes: []string{"refcount.RefCount"}},
+		},
+		Floors:      map[string]int{"R7": 7, "R16": 1, "R12": 2, "R1a": 8},
+		Explanation: "Release-function typestate: the resolver's release function is stored only under the current generation together with the result, or called/shown nil (a stale result is released, not stored); valueRel() is always followed by valueRel = nil in the same section and preceded by telling the reference callbacks the value is gone; the generation is bumped in the section that cancels a resolver; removeRef shuts down exactly when the last reference goes and the value is not kept; SetContext restarts exactly when the context changed; Ref.Release is idempotent; all of it under mtx." + structural,
+		NotDecided:  "timing ('shortly after'); that the client's release function is itself idempotent.",
+		Assumptions: []string{A1, A3, A4},
+		Technique:   "typestate rules (store/call/forget ordering, iff-guards) on paths + static lockset",
+	})
+	add(&Property{
+		ID: "C09", Title: "refcount: referenced+context means resolved, by one resolver at a time",
+		Sels: []Sel{
+			{Run: "R3", Scope: []string{"refcount"}, Prefixes: []string{"refcount."}},
+			{Run: "Grefcount", Rules: []string{"R6a"}},
+			{Run: "Grefcount", Rules: []string{"R12", "R7"}, Contains: []string{"released", "AddRef", "begins-with-shutdown", "generation-bump"}},
+			{Run: "R1", Scope: []string{"refcount", "ccontainer", "promise", "broadcast"}, Rules: []string{"R11"}},
+		},
+		Floors:      map[string]int{"R3a": 2, "R3c": 1, "R6a": 2, "R12": 4},
+		Explanation: "One resolver at a time: resolve waits for the previous resolver before it calls the resolver and before it closes its done channel; startResolveLocked hands over a fresh channel and the previous one (R3). released() restarts exactly when the generation is unchanged, under the lock, taken with TryLock or from a goroutine (no re-acquisition of a held lock, acyclic lock order: R11). Late references get the current value under the lock; Ref.cb is nil-tested at every call site (documented nil callback)." + structural,
+		NotDecided:  "progress as such ('a resolver call is in progress or its result delivered' at quiescent points) — needs histories.",
+		Assumptions: []string{A1, A3, A4},
+		Technique:   "exit-channel-chain analysis + nil-guard agreement + lock-order/self-deadlock analysis",
+	})
+	add(&Property{
+		ID: "C10", Title: "refcount: consumers get the current value, are cancelled when it is invalidated",
+		Sels: []Sel{
+			{Run: "Grefcount", Rules: []string{"R12", "R13e"}, Contains: []string{"Access", "Wait", "Resolve/", "ResolveWithReleased", "released"}},
+			{Run: "R2", Scope: []string{"refcount", "broadcast"}, Rules: []string{"R2a", "R2b", "R2c", "R2d"}, Prefixes: []string{"refcount."}},
+			{Run: "R17", Scope: []string{"refcount"}, Rules: []string{"R17", "R2f"}, Prefixes: []string{"refcount.(*RefCount).Access"}},
+			{Run: "R1", Scope: []string{"refcount", "promise", "broadcast", "ccontainer"}, Rules: []string{"R1b", "R1c", "R1d"}, Prefixes: []string{"refcount."}},
+		},
+		Floors:      map[string]int{"R12": 9, "R2a": 1, "R2c": 1, "R1b": 7, "R1c": 1},
+		Explanation: "Access hands its callback the value sampled together with its subscription, cancels the callback context from a watcher when the wait channel fires (cbCancel deferred), and returns the callback's result only when a generation comparison made under the lock after the callback returned found the generation unchanged; Wait/Resolve/ResolveWithReleased release the reference only on the error path; released() re-resolves exactly when the generation is unchanged; the locals shared with reference callbacks are protected by the callback-field contract (Ref.cb runs under mtx)." + structural,
+		NotDecided:  "'promptly'; the sequence-of-values claim; exactly-once firing of the released callback beyond the sync.Once wiring.",
+		Assumptions: []string{A1, A3, A4},
+		Technique:   "guarded-effect + waiter-discipline analysis + static lockset of shared locals",
+	})
+	add(&Property{
+		ID: "C11", Title: "promise: resolved at most once, every awaiter sees that result and returns",
+		Sels: []Sel{
+			{Run: "Gpromise", Rules: []string{"R9"}},
+			{Run: "R2", Scope: []string{"promise", "broadcast"}, Rules: []string{"R2a", "R2b", "R2c", "R2d"}, Prefixes: []string{"promise."}},
+			{Run: "R17", Scope: []string{"promise"}, Rules: []string{"R17", "R2f"}, Prefixes: []string{"promise.(*Promise)", "promise.(*PromiseContainer)"}, Exclude: []string{"return-received-error"}},
+			{Run: "R1", Scope: []string{"promise"}, Rules: []string{"R1a", "R1d"}, Prefixes: []string{"promise.Promise", "promise.PromiseContainer"}},
+		},
+		Floors:      map[string]int{"R9": 8, "R2a": 3, "R2b": 2, "R2c": 3, "R1d": 2},
+		Explanation: "Promise.SetResult stores the result and closes done only after winning isDone.Swap(true) and returns true exactly there; the result fields are read only behind a receive from done (R1d); each Await* is one blocking select whose done arm alone returns the result; PromiseContainer awaiters sample the promise with their subscription, are woken by every replacement (SetPromise/SetResult broadcast on change), re-sample only after a consumed wake-up — including when the result's error is context.Canceled — and return context.Canceled only when their context fired; every blocking site listens to the context and to the error/cancel channel (R2f)." + structural,
+		NotDecided:  "that awaiters are scheduled; CPU time as a quantity; whether a nil value received from an error channel should end an await (the three promise awaiters return it; not claimed either way).",
+		Assumptions: []string{A3},
+		Technique:   "single-assignment/publication rules + waiter discipline + interruption-source coverage",
+	})
+	add(&Property{
+		ID: "C12", Title: "cqueue/linkedlist: concurrent Push/Pop are linearizable and conserve elements",
+		Sels: []Sel{
+			{Run: "Gqueue", Rules: []string{"R10"}},
+			{Run: "R1", Scope: []string{"cqueue", "linkedlist"}, Rules: []string{"R1a", "R11a"}},
+		},
+		Floors:      map[string]int{"R10": 15, "R1a": 3},
+		Explanation: "Only the shape conditions of the standard proofs: AtomicLIFO.Push/Pop load top afresh in every attempt, link/read next from that load in the same iteration, CAS against it, leave only on CAS success (or an empty load) and never write a node after publishing it; every exported LinkedList method is exactly one write-mode critical section containing all its list accesses (one atomic step of the sequential deque)." + structural,
+		NotDecided:  "linearizability itself, LIFO/FIFO order and element conservation are statements about concurrent histories and are NOT decided by static analysis; a green run certifies the shape conditions without which the Treiber/critical-section arguments do not go through, nothing more.",
+		Assumptions: []string{A3},
+		Technique:   "lock-free loop shape rule (fresh load / CAS on loaded value / link before CAS) + single-section rule",
+	})
+	add(&Property{
+		ID: "C13", Title: "no data races inside the library under any concurrent use of its concurrent APIs",
+		Sels: []Sel{{Run: "R1", Scope: ConcurrentPkgs, Rules: []string{"R1", "R11a", "R11c"}}},
 		Floors:      map[string]int{"R1a": 60, "R1b": 12, "R1c": 2, "R1d": 4, "R1a-opt": 1},
 		Explanation: "Static lockset analysis (R1) over the 14 packages of the concurrency-safe types: for every struct field and every local captured by an escaping closure, all non-construction accesses reached from any entry point hold a common lock, or the variable is never written, atomic, or published by an atomic election followed by a channel close (R1d); callback fields are invoked under their contract lock (R1c); option callbacks run on freshly constructed containers (R1a-opt); every acquired lock is released on every non-panicking path (R11a).",
 		NotDecided:  "races on memory the library reaches only through client values of type T; instance confusion excluded by A1; internals of third-party packages; anything in _test.go files.",
 		Assumptions: []string{A1, A3, A4, A5},
 		Technique:   "static lockset analysis (per-variable consistent lockset, top-down lockset propagation over resolved calls, AST path walker)",
+	})
+	add(&Property{
+		ID: "C14", Title: "routine: exit status, restart rules and backoff follow the documented machine",
+		Sels: []Sel{
+			{Run: "Groutine", Rules: []string{"R12", "R5a", "R5b", "R5c"}},
+			{Run: "R2", Scope: []string{"routine", "broadcast"}, Rules: []string{"R2a", "R2b", "R2c"}, Prefixes: []string{"routine."}},
+			{Run: "R17", Scope: []string{"routine"}, Rules: []string{"R17", "R2f"}},
+		},
+		Floors:      map[string]int{"R12": 12, "R5b": 2, "R5c": 3, "R2a": 1, "R2b": 8, "R17": 3},
+		Explanation: "A nil-returning routine is spawned again only under forceRestart, which is a constant at every call site and true only in restartRoutineLocked and the retry timer; SetContext restarts errored routines only with restart; exit status, exit callbacks and retry arming happen only for the still-current instance (r.ctx == ctx) under the lock; the retry timer is armed exactly when retry is configured, the exit failed, the record is registered and the back-off is not Stop, and success resets the back-off; the timer restarts only a registered, exited record; no API path stops a pending retry without (re)starting, detaching or re-arming. WaitExited samples the current record in its subscribing section, is woken by every status change, and returns an error-channel value only when it is an error." + structural,
+		NotDecided:  "run counts and the correspondence with a reference state machine over histories; the pointer-typed parts of WaitExited's condition (ctx, routine) in R2b; back-off values.",
+		Assumptions: []string{A1, A2, A3, A4, A5},
+		Technique:   "guarded-effect analysis with iff-guards, who-may-pass-constant check, waiter discipline",
+	})
+	add(&Property{
+		ID: "C15", Title: "ccontainer: atomic value cell whose waiters return exactly when satisfied",
+		Sels: []Sel{
+			{Run: "Gccontainer", Rules: []string{"R12"}},
+			{Run: "R2", Scope: []string{"ccontainer", "broadcast"}, Rules: []string{"R2a", "R2b", "R2c", "R2d"}, Prefixes: []string{"ccontainer."}},
+			{Run: "R17", Scope: []string{"ccontainer"}, Rules: []string{"R17", "R2f"}},
+			{Run: "R1", Scope: []string{"ccontainer"}, Rules: []string{"R1a"}},
+		},
+		Floors:      map[string]int{"R12": 5, "R2a": 1, "R2b": 2, "R2c": 1, "R17": 3, "R1a": 1},
+		Explanation: "val is accessed only inside the container's critical sections; SwapValue reads, calls the callback and stores in one section; every store of the cell broadcasts; WaitValueWithValidator validates and returns the value sampled with its subscription, re-samples only after a consumed event, returns the context's error only in the ctx arm and an error-channel value only when it is a non-nil error; the Wait* wrappers delegate to it." + structural,
+		NotDecided:  "custom equal functions that are not equivalences; validator side effects.",
+		Assumptions: []string{A1, A3, A4},
+		Technique:   "waiter discipline + same-section read-modify-write rule + static lockset",
+	})
+	add(&Property{
+		ID: "C16", Title: "Once/MemoizeFunc: one call in flight, success kept forever, failure retried",
+		Sels: []Sel{
+			{Run: "Gpromise", Rules: []string{"R8"}},
+			{Run: "R1", Scope: []string{"promise", "memo"}, Rules: []string{"R1a", "R1b", "R1d"}, Prefixes: []string{"promise.Once", "promise.(*Once)", "memo."}},
+			{Run: "R17", Scope: []string{"promise"}, Rules: []string{"R17", "R2f"}, Prefixes: []string{"promise.(*Once)"}},
+		},
+		Floors:      map[string]int{"R8": 9, "R1a": 1},
+		Explanation: "Once: the callback goroutine is spawned only under o.prom == nil in the section that stores the new promise; o.prom is cleared only under the lock, the identity test and the callback's own non-nil error, after the callback returned; every path of the goroutine completes the promise; every trip around Resolve's loop tests the caller's context, which is the only source of its context.Canceled. MemoizeFunc: fn is called only by the winner of started.Swap(true) with close(done) deferred first; the other callers read the result behind <-done (R1d)." + structural,
+		NotDecided:  "'every caller receives that call's result' as a value statement; that the callback terminates.",
+		Assumptions: []string{A3, A4},
+		Technique:   "single-flight election rules (guards with definition provenance) + publication idiom",
+	})
+	add(&Property{
+		ID: "C17", Title: "ccall: the result is nil only if every function returned nil",
+		Sels: []Sel{
+			{Run: "Gccall"},
+			{Run: "R1", Scope: []string{"ccall"}, Rules: []string{"R1b"}},
+			{Run: "R2", Scope: []string{"ccall", "broadcast"}, Rules: []string{"R2a", "R2b", "R2c", "R2d"}, Prefixes: []string{"ccall."}},
+			{Run: "R17", Scope: []string{"ccall"}, Rules: []string{"R17", "R2f"}},
+		},
+		Floors:      map[string]int{"R13a": 3, "R12": 3, "R6a": 2, "R1b": 3, "R2a": 1},
+		Explanation: "All state shared with the workers (running, exitErr) is accessed under the local Broadcast only — in particular the 'nothing was started' decision (R1b); each worker decrements running exactly once in a section that records the error and broadcasts; a real error replaces nil or context.Canceled and nothing else; each spawn is counted and nil-tested, including the single-function fast path; the waiting loop returns the error it sampled under the lock; the sub-context's cancel is deferred before anything runs; context.Canceled is returned only from the ctx.Done() arm." + structural,
+		NotDecided:  "which of several errors is returned.",
+		Assumptions: []string{A3, A4},
+		Technique:   "balance/exactly-once rules + iff-guard on the error merge + static lockset of shared locals",
+	})
+	add(&Property{
+		ID: "C18", Title: "conc queue: bounded parallelism, every job exactly once, idle means done",
+		Sels: []Sel{
+			{Run: "Gconc"},
+			{Run: "R2", Scope: []string{"conc", "broadcast"}, Rules: []string{"R2a", "R2b", "R2c", "R2d"}, Prefixes: []string{"conc."}},
+			{Run: "R17", Scope: []string{"conc"}, Rules: []string{"R17", "R2f"}, Prefixes: []string{"conc.(*ConcurrentQueue).WaitIdle"}},
+			{Run: "R1", Scope: []string{"conc", "linkedlist"}, Rules: []string{"R1a"}},
+		},
+		Floors:      map[string]int{"R12": 5, "R13b": 1, "R2a": 2, "R2b": 5, "R17": 3, "R1a": 4},
+		Explanation: "A worker is spawned (running++) exactly under 'unlimited or running < limit', decided in the section that spawns; each enqueued job goes to exactly one of worker/queue with the matching counter; a worker retires only when the Pop made in the same section failed; WaitIdle samples 'idle' with its subscription, every path that can make running == 0 && queued == 0 true broadcasts (one frozen, justified exception), WaitIdle returns nil only when idle was sampled and an error-channel value only when it is a non-nil error; counters are accessed under the lock only." + structural,
+		NotDecided:  "the invariant 'queued > 0 only if running = limit' as such (an inductive invariant over counter values); enqueue order for n = 1 beyond the FIFO wiring; WatchState's optional errCh (it is not listened to; outside the property).",
+		Assumptions: []string{A1, A2, A3},
+		Technique:   "guarded-effect analysis (iff on the concurrency limit), one-sink-per-job balance, waiter discipline",
+	})
+	add(&Property{
+		ID: "C19", Title: "byte/string codecs: padding round-trips, prefix is longest, prng is reproducible",
+		Sels:        []Sel{{Run: "Gcodec"}},
+		Floors:      map[string]int{"R14a": 1, "R14b": 1, "R14c": 5},
+		Explanation: "Three panic/encoding/effect conditions only: UnpadInPlace indexes data[len(data)-1] only after excluding empty input and slices by the padding length only after comparing it with len(data); commonprefix never converts a byte/integer with string(b); in prng no nondeterministic source or package-level state is reachable, the reader's state is written only by Read, and a new word is drawn from the source only when the buffered word is used up.",
+		NotDecided:  "VALUE SEMANTICS ARE NOT DECIDED: that PadInPlace's length is a positive multiple of 32 and round-trips through UnpadInPlace, that Prefix is the longest common prefix, and that the prng stream is independent of read chunking are statements about computed values; a green run does not mean the codecs are correct.",
+		Assumptions: []string{A5},
+		Technique:   "index-before-length-guard lint, byte-to-string conversion lint, effect/reachability rule",
+	})
+	add(&Property{
+		ID: "C20", Title: "sequential helpers match their reference models on every operation sequence",
+		Sels: []Sel{
+			{Run: "Gio"},
+			{Run: "R1", Scope: []string{"iocloser"}, Rules: []string{"R1a", "R11a"}},
+		},
+		Floors:      map[string]int{"R15": 20, "R13c": 3, "R1a": 4},
+		Explanation: "Shape conditions: ioseek stores a new offset exactly when it is in range and never before an error return, Read advances by the returned count on every path; iosizer adds exactly the positive count it returns; iocloser.Close detaches stream and close function under the lock on every path and calls the saved function outside it under a nil test, Read/Write use the stream only under the lock after a nil test; ioproxy starts two swapped pumps, each closing both ends and calling back once; unique performs per input value exactly one store/delete with one matching notification, or none after the comparison/absence test.",
+		NotDecided:  "VALUE SEMANTICS ARE NOT DECIDED: equivalence with a section reader, byte order through io.CopyBuffer, replay equality of notifications, 'latest set that differed'.",
+		Assumptions: []string{A5},
+		Technique:   "per-path shape rules (iff-guards, must-assign, exactly-once sinks)",
 	})
 }
